@@ -34,7 +34,7 @@ fn kind_table(quick: bool) -> Vec<(&'static str, &'static str, Vec<u8>)> {
 #[derive(Serialize, Deserialize, Hash, Clone, Debug)]
 struct Case {
     tree: Map,
-    /// additional entry added by the caller: none | file | exe | link | dir
+    /// additional entry added by the caller: none | file | exe | link | dir | gitlink
     extra: String,
 }
 
@@ -48,6 +48,7 @@ fn extra_entry(extra: &str) -> Option<(gix_worktree_stream::AdditionalEntry, (St
         "exe" => (EntryKind::BlobExecutable, "extra-exe", "exe", b"#!/bin/true\n"),
         "link" => (EntryKind::Link, "extra/link", "link", b"../a"),
         "dir" => (EntryKind::Tree, "extra-dir", "dir", b""),
+        "gitlink" => (EntryKind::Commit, "extra-dir", "sub", b""),
         _ => return None,
     };
     Some((
@@ -55,7 +56,7 @@ fn extra_entry(extra: &str) -> Option<(gix_worktree_stream::AdditionalEntry, (St
             id: ObjectId::null(gix_hash::Kind::Sha1),
             mode: mode.into(),
             relative_path: path.into(),
-            source: if kind == "dir" { Source::Null } else { Source::Memory(content.to_vec()) },
+            source: if kind == "dir" || kind == "sub" { Source::Null } else { Source::Memory(content.to_vec()) },
         },
         (path.to_string(), kind, content.to_vec()),
     ))
@@ -138,7 +139,12 @@ fn parse_tar(bytes: &[u8]) -> Result<(Listing, Vec<String>), String> {
                 }
                 files.push((name, "link", cstr(&h[157..257]).into_bytes()))
             }
-            b'5' => dirs.push(name.trim_end_matches('/').to_string()),
+            b'5' => {
+                if size != 0 {
+                    return Err(format!("directory {name} with {size} bytes of data"));
+                }
+                dirs.push(name.trim_end_matches('/').to_string())
+            }
             b'g' | b'x' => {}
             other => return Err(format!("unexpected entry type {:?} for {name}", other as char)),
         }
@@ -226,8 +232,8 @@ pub fn run(run: &'static Run) {
     run.rule(format!(
         "trees = every assignment of (absent | one of kinds {kind_names:?}) to the path slots {SLOTS:?} with fewer than {} entries, \
          plus all trees with exactly that many entries over the kinds empty/buf+1/exe/link/sub; \
-         file sizes around the stream buffer (65535 bytes); x additional entry in {{none, file, exe, link, dir}} for trees with <=1 entry, {{none, file}} otherwise \
-         (quick: 2-entry trees only on the slot pairs (a, d/e/c) and (d/b, d/e/c); extras {{none, file, link}} for 1-entry trees, {{file}} for 2-entry trees). Per case: (1) stream entries \
+         file sizes around the stream buffer (65535 bytes); x additional entry in {{none, file, exe, link, dir, gitlink}} for trees with <=1 entry, {{none, file}} otherwise \
+         (quick: 2-entry trees only on the slot pairs (a, d/e/c) and (d/b, d/e/c); extras {{none, file, link}} for 1-entry trees + {{dir, gitlink}} after a 1-byte file, a 65536-byte file and a symlink, {{file}} for 2-entry trees). Per case: (1) stream entries \
          (path, mode, id, content) == blobs/executables/symlinks of the tree + the additional entry, each once; (2) tar written by gix-archive == `git archive --format=tar` + the additional entry, both read by an independent header reader \
          (checksums verified), and additionally extracted with tar(1) for trees with <=1 entry (quick: the empty tree with every extra + each kind once at d/e/c); (3) zip written by gix-archive, read by an independent \
          central-directory reader (inflate + CRC) and, for the same trees, extracted with unzip(1): names, unix modes (symlink / executable bit), contents == the same listing. non-trivial = the tree has at least one streamed entry.",
@@ -301,7 +307,7 @@ pub fn run(run: &'static Run) {
     // extra and each kind once at the deepest slot
     let real_tools = move |c: &Case| -> bool {
         if quick {
-            c.tree.is_empty() || (c.tree.len() == 1 && c.tree.contains_key("d/e/c") && c.extra == "none")
+            c.tree.is_empty() || (c.tree.len() == 1 && ((c.tree.contains_key("d/e/c") && c.extra == "none") || c.extra == "dir" || c.extra == "gitlink"))
         } else {
             c.tree.len() <= 1
         }
@@ -321,6 +327,18 @@ pub fn run(run: &'static Run) {
                     (_, true) => &["file"],
                     (_, false) => &["none", "file"],
                 };
+                let mut extras: Vec<&str> = extras.to_vec();
+                if m.len() == 1 && (!quick || m.values().any(|k| ["one", "buf+1", "link"].contains(&k.as_str()))) {
+                    // entries without content right after an entry WITH content (stale-buffer bugs); thorough: after every kind
+                    for e in ["dir", "gitlink"] {
+                        if !extras.contains(&e) {
+                            extras.push(e);
+                        }
+                    }
+                }
+                if m.is_empty() {
+                    extras.push("gitlink");
+                }
                 for e in extras {
                     emit(Case { tree: m.clone(), extra: e.to_string() });
                 }
@@ -414,7 +432,7 @@ pub fn run(run: &'static Run) {
                 if extracted != got {
                     return bad("tar-content", format!("tar(1) extracted [{}], the headers describe [{}]", brief(&extracted), brief(&got)));
                 }
-                if c.extra == "dir" && !ours_dir.join("extra-dir").is_dir() {
+                if (c.extra == "dir" || c.extra == "gitlink") && !ours_dir.join("extra-dir").is_dir() {
                     return bad("tar-content", "additional directory entry is missing after extraction");
                 }
             }
@@ -432,16 +450,16 @@ pub fn run(run: &'static Run) {
             };
             lap(2, &mut t0);
             let mut want = git_listing;
-            want.extend(extra.clone().filter(|e| e.1 != "dir"));
+            want.extend(extra.clone().filter(|e| e.1 != "dir" && e.1 != "sub"));
             want.sort();
             if got != want {
                 return bad("tar-content", format!("tar holds [{}], git archive (+extra) gives [{}]", brief(&got), brief(&want)));
             }
-            let want_listing: Listing = expected.iter().filter(|e| e.1 != "dir").cloned().collect();
+            let want_listing: Listing = expected.iter().filter(|e| e.1 != "dir" && e.1 != "sub").cloned().collect();
             if want != want_listing {
                 vkit::machinery!("git archive [{}] differs from the tree listing [{}]", brief(&want), brief(&want_listing));
             }
-            if c.extra == "dir" && !got_dirs.iter().any(|d| d == "extra-dir") {
+            if (c.extra == "dir" || c.extra == "gitlink") && !got_dirs.iter().any(|d| d == "extra-dir") {
                 return bad("tar-content", "additional directory entry is missing in the tar");
             }
 
@@ -470,7 +488,7 @@ pub fn run(run: &'static Run) {
             if got != want_listing {
                 return bad("zip-content", format!("zip holds [{}], expected [{}]", brief(&got), brief(&want_listing)));
             }
-            if c.extra == "dir" && !got_dirs.iter().any(|d| d == "extra-dir") {
+            if (c.extra == "dir" || c.extra == "gitlink") && !got_dirs.iter().any(|d| d == "extra-dir") {
                 return bad("zip-content", "additional directory entry is missing in the zip");
             }
             // ... and unzip(1) itself must accept it and produce the same files (trees with <= 1 entry, every extra)
@@ -489,7 +507,7 @@ pub fn run(run: &'static Run) {
                 if extracted != got {
                     return bad("zip-content", format!("unzip extracted [{}], the directory describes [{}]", brief(&extracted), brief(&got)));
                 }
-                if c.extra == "dir" && !zip_dir.join("extra-dir").is_dir() {
+                if (c.extra == "dir" || c.extra == "gitlink") && !zip_dir.join("extra-dir").is_dir() {
                     return bad("zip-content", "additional directory entry is missing after unzip");
                 }
             }
